@@ -176,7 +176,13 @@ def autoclose(ctx):
     from pyworkers.worker import Worker, autoclose_active_children
     from pyworkers.thread import ThreadWorker
     from pyworkers.persistent_thread import PersistentThreadWorker
-    for shape in (('T',), ('PT',), ('T', 'PT'), ('T', 'T', 'PT'), ('T0', 'T'), ()):
+    class SlowCleanupT(ThreadWorker):
+        """The clean-up hook of this worker takes a while: the worker is alive until its thread has really gone."""
+        def _cleanup(self):
+            time.sleep(0.3)
+            return super()._cleanup()
+
+    for shape in (('T',), ('PT',), ('T', 'PT'), ('T', 'T', 'PT'), ('T0', 'T'), (), ('Tslow',), ('T', 'Tslow')):
         for exc in (False, True, 'KeyboardInterrupt', 'SystemExit', 'GeneratorExit'):
             reset_registry()
             ws = []
@@ -190,6 +196,10 @@ def autoclose(ctx):
                             ws.append(ThreadWorker(spin, args=[f]))
                         elif s == 'T0':
                             ws.append(ThreadWorker(spin, args=[Flag()], run=False))
+                        elif s == 'Tslow':
+                            f = Flag()
+                            flags.append(f)
+                            ws.append(SlowCleanupT(spin, args=[f]))
                         else:
                             ws.append(PersistentThreadWorker(ident))
                     list(Worker.active_children())
@@ -200,7 +210,16 @@ def autoclose(ctx):
                         raise {'KeyboardInterrupt': KeyboardInterrupt, 'SystemExit': SystemExit, 'GeneratorExit': GeneratorExit}[exc]()
             except (KeyError, KeyboardInterrupt, SystemExit, GeneratorExit):
                 pass
-            alive = [i for i, w in enumerate(ws) if getattr(w, '_started', False) and w._child.is_alive()]
+            # first what the library says (the listing), then the threads themselves: a thread found running afterwards was running
+            # when the listing was made
+            listed = list(Worker.active_children())
+            running = [i for i, w in enumerate(ws) if getattr(w, '_started', False) and w._child.is_alive()]
+            dropped = [i for i in running if not any(ws[i] is c for c in listed)]
+            if dropped:
+                ctx.violation('SEQ/autoclose/worker-with-a-running-thread-not-listed/%s' % '+'.join(shape), {'workers': shape, 'exception_in_body': exc},
+                              {'running_but_not_listed': dropped}, 'a worker whose thread is running is alive', engine='SEQ')
+            # (a worker whose clean-up hook outlasts the fixed grace period of the block may still be finishing: only the listing is judged)
+            alive = [i for i in running if shape[i] != 'Tslow']
             ctx.count()
             ctx.distinct(('autoclose', shape, exc))
             ctx.outcome('autoclose:%d-left' % len(alive))
